@@ -12,6 +12,8 @@ import concurrent.futures
 import json
 import os
 
+import c16extra
+
 FAMS = ["num", "dec", "text", "fold", "enc", "datauri", "media"]
 BOUNDS = {"quick": {"num": 6, "dec": 6, "text": 5, "fold": 2, "enc": 4, "datauri": 3, "media": 2},
           "thorough": {"num": 7, "dec": 7, "text": 6, "fold": 3, "enc": 5, "datauri": 4, "media": 3}}
@@ -169,6 +171,7 @@ def run(ck):
                        "target: unconstrained (statement silent)",
                        "a literal '+' in a percent-encoded data URI payload may decode to a space (form-encoding reading) or to '+' (RFC 3986 reading): "
                        "the statement does not choose; today DataURI returns a space, also for URIs written with the package's own DataURIEncodingTable"]
+    c16extra.run(ck, thorough)   # growth beyond the property (DESIGN.md section 7 item 5): disagreements are NOTEs, never violations
 
 
 def replay(ck, path):
